@@ -154,7 +154,7 @@ def generate(seed: int, tier: str, phase: str) -> Dict[str, Any]:
         ops.append({"op": "call", "j": 15, "k": 0, "bwd": True, "gseed": 0})
     return {"phase": phase, "member": member, "sizes": sizes, "gen_opts": gen_opts, "mseed": r.randrange(1 << 20),
             "key": r.randrange(1 << 30), "ops": ops, "timeout": 300 if phase != "compile" else 900,
-            "shrink_budget": 80}
+            "shrink_budget": 240}
 
 
 # ------------------------------------------------------------------------------------
@@ -253,7 +253,7 @@ def execute(plan: Dict[str, Any]) -> Dict[str, Any]:
 
         from models import proggen
 
-        spec = proggen.generate(random.Random(plan["mseed"]), plan["gen_opts"])
+        spec = plan.get("spec") or proggen.generate(random.Random(plan["mseed"]), plan["gen_opts"])
     else:
         spec = family.build(member, plan["mseed"], **plan["sizes"])
     original = programs.ProgModule(spec)
@@ -537,6 +537,16 @@ def execute(plan: Dict[str, Any]) -> Dict[str, Any]:
 
 
 def simplify(plan: Dict[str, Any]) -> Iterable[Dict[str, Any]]:
+    if plan["member"] == "gen":
+        import random
+
+        from models import proggen, shrinkspec
+
+        base = plan.get("spec") or proggen.generate(random.Random(plan["mseed"]), plan["gen_opts"])
+        for cand in shrinkspec.candidates(base):
+            c = copy.deepcopy(plan)
+            c["spec"] = cand
+            yield c
     if plan["sizes"] != {"B": 2, "T": 3, "D": 4, "H": 8}:
         c = copy.deepcopy(plan)
         c["sizes"] = {"B": 2, "T": 3, "D": 4, "H": 8}
